@@ -58,7 +58,7 @@ ObsUpdate ==
       [] OTHER ->
            /\ UNCHANGED <<obsStack, obsMemo>>
            /\ obsWhy' = IF obsWhy # "" THEN obsWhy
-                        ELSE IF Ev.id \notin obsMemo THEN "harness: hit on a type never registered" ELSE ""
+                        ELSE IF Ev.id \notin obsMemo THEN "drift: memo hit on " \o Ev.key \o ", a type that was never entered (registered outside the enter / return protocol)" ELSE ""
 
 ModelFollows == Next /\ last' = [ev |-> Ev.ev, id |-> Ev.id]
 
@@ -72,12 +72,14 @@ TEvent == /\ l <= Len(Trace) /\ Ev.ev \in {"enter", "hit", "return"} /\ l' = l +
                   /\ UNCHANGED <<g, roots, memo, stack, todo, last>>
 
 TFinal == /\ IsEvent("final")
-          /\ LET why == IF Ev.outcome = "fatal" \/ Ev.outcome = "timeout" THEN "analysis does not terminate (" \o Ev.outcome \o "): " \o Ev.msg
-                        ELSE IF obsWhy # "" THEN obsWhy
+          /\ LET isDrift == Len(obsWhy) > 6 /\ SubSeq(obsWhy, 1, 6) = "drift:"
+                 why == IF Ev.outcome = "fatal" \/ Ev.outcome = "timeout" THEN "analysis does not terminate (" \o Ev.outcome \o "): " \o Ev.msg
+                        ELSE IF obsWhy # "" /\ ~isDrift THEN obsWhy
                         ELSE IF Ev.outcome = "runtime" THEN "analysis crashed: " \o Ev.msg
                         ELSE IF Ev.outcome # "ok" THEN "supported input refused: " \o Ev.msg
                         ELSE FinalVerdict(Ev)
-                 dr == IF drift # "" THEN drift
+                 dr == IF isDrift THEN obsWhy
+                       ELSE IF drift # "" THEN drift
                        ELSE IF Ev.outcome = "ok" /\ ~(stack = <<>> /\ todo = <<>>) THEN "the model has steps left when the code is done" ELSE ""
              IN IF why = "" /\ dr = "" THEN TRUE
                 ELSE TLCSet(1, Append(TLCGet(1), [case |-> Ev.case, why |-> why, drift |-> dr]))
